@@ -669,8 +669,8 @@ def c09_directed(prefix):
 
 def c09_streams(seed, tier):
     prof = Profile(actions=NONCONSUMING, inject_first_p=0.4, inject_events_p=0.8, post_p=0.1, react_p=0.2, n_ctx=(1, 2),
-                   cond_kinds=SCRIPTED, mod_kinds=CUSTOM_MODS, time_p=0.2,
-                   input_kinds=["key"] * 5 + ["mbtn"] * 2 + ["motion", "wheel"], pads=(0, 0))
+                   cond_kinds=SCRIPTED, mod_kinds=CUSTOM_MODS, time_p=0.2, ui_p=0.2,
+                   input_kinds=["key"] * 4 + ["mbtn"] * 3 + ["motion", "wheel"], pads=(0, 0))
     return c09_directed("c09d") + gen.app_batch(seed, 300 if tier == "quick" else 10000, prof, "c09r")
 
 
